@@ -99,7 +99,8 @@ def hasBase64Encoding (tags : List Tag) : Bool :=
 
 /-- what OpenMLS says about the event content (opaque to the model) -/
 inductive Content where
-  | ok          -- base64 of a key package that passes `KeyPackageIn::validate`
+  | ok          -- base64 of bytes that START with a key package passing `KeyPackageIn::validate`
+                --   (`KeyPackageIn::tls_deserialize(&mut slice)` does not look at what follows it)
   | notBase64   -- `decode_content` fails
   | badMls      -- base64 fine, TLS deserialisation / validation of the key package fails
   deriving DecidableEq, Repr
@@ -287,10 +288,12 @@ def readDigits : Bytes → Nat → Option Nat
   | c :: r, acc => if 48 ≤ c ∧ c ≤ 57 then readDigits r (acc * 10 + (c - 48)) else none
 
 /-- `str::parse::<u32>()`: optional `+`, at least one digit, no overflow -/
+def stripPlus : Bytes → Bytes
+  | 43 :: r => r
+  | r => r
+
 def readU32 (s : Bytes) : Option Nat :=
-  let digits := match s with
-                | 43 :: r => r
-                | r => r
+  let digits := stripPlus s
   if digits.isEmpty then none
   else
     match readDigits digits 0 with
